@@ -680,11 +680,19 @@ func (r *recordOracle) OnStep(e *Engine, st *StepRec) *Violation {
 	if recv == nil {
 		recv = map[int][]wamp.Message{}
 	}
+	// a session whose transport the router closed in this step: marked, so that
+	// the comparison knows it ended even when the router's last message (GOODBYE,
+	// ABORT) was discarded by the closing transport
+	for _, idx := range st.Closed {
+		recv[idx] = append(recv[idx], &wamp.Abort{Reason: endedMarker})
+	}
 	r.steps = append(r.steps, recv)
 	r.sent = append(r.sent, st.Sent)
 	r.stepOps = append(r.stepOps, st.OpIdx)
 	return nil
 }
+
+const endedMarker = wamp.URI("verif.session.ended")
 
 // canonTrace renders per-session observations so that two runs that differ only
 // in the router's random ids (and in orders that depend on map iteration) give
@@ -735,16 +743,22 @@ func canonTrace(steps []map[int][]wamp.Message, nsess int) []string {
 		for s := 0; s < nsess; s++ {
 			msgs := st[s]
 			for _, m := range msgs {
-				// the step in which a session ends: what else reaches it while
-				// it is being removed is order dependent; only the GOODBYE or
-				// ABORT counts
+				// the step in which a session ends: what else reaches it while it
+				// is being removed is order dependent, and over a serialised
+				// transport even the router's GOODBYE / ABORT may be discarded by
+				// the closing transport: only the fact that it ended is compared
 				switch m.(type) {
 				case *wamp.Goodbye, *wamp.Abort:
-					msgs = []wamp.Message{m}
+					msgs = []wamp.Message{&wamp.Abort{Reason: endedMarker}}
 				}
 			}
 			for _, m := range msgs {
 				o := obs{step: si, sess: s, typ: m.MessageType().String()}
+				if a, ok := m.(*wamp.Abort); ok && a.Reason == endedMarker {
+					o.typ = "ENDED"
+					all = append(all, o)
+					continue
+				}
 				switch x := m.(type) {
 				case *wamp.Welcome:
 					o.fields = []any{prep(Canon(x.ID))}
